@@ -332,6 +332,31 @@ theorem C19_set_leaves_other_keys (p q : String) (v : Json) (d : Option Json) (h
 
 example : ("b.c" : String).isEmpty = false ∧ (splitPath "a.0.x").head? ≠ (splitPath "b.c").head? := by decide
 
+/-- persistence round trips — the store object replaced by one restored from its own `to_dict`
+payload (memory: `from_dict`; SQLite: reconnect to the row, SQL copy of the row into a new run, or
+migration of an in-memory payload into a new run) — can be inserted anywhere in any operation
+sequence, snapshot handling and write-backs included: every store operation returns what it returns
+without them, and the store (and the snapshot the caller holds) is the same at the end -/
+theorem C19_persist_restore_unobservable (ops : List OpP) :
+    (∀ m : Mem,
+      outsAtOps ops (runOutsP Mem.stepP m ops) = runOuts Mem.step m (ops.filterMap OpP.op?) ∧
+      runStateP Mem.stepP m ops = runState Mem.step m (ops.filterMap OpP.op?)) ∧
+    (∀ q : Sql,
+      outsAtOps ops (runOutsP Sql.stepP q ops) = runOuts Sql.step q (ops.filterMap OpP.op?) ∧
+      (runStateP Sql.stepP q ops).abs = (runState Sql.step q (ops.filterMap OpP.op?)).abs ∧
+      (runStateP Sql.stepP q ops).held = (runState Sql.step q (ops.filterMap OpP.op?)).held) :=
+  ⟨fun m => mem_erase_persist ops m, fun _ => sql_erase_persist ops rfl rfl rfl rfl⟩
+
+/-- the round trips do something to the machine: migrating a store that has no row yet writes the
+defaults, copying a run without a row gives a run without a row -/
+example :
+    (runStateP Sql.stepP (Sql.init [[("a", .int 0)]] (.typed 0)) [.persist .copyRun]).row = none ∧
+    (runStateP Sql.stepP (Sql.init [[("a", .int 0)]] (.typed 0)) [.persist .migrate]).row = some [("a", .int 0)] ∧
+    runOutsP Sql.stepP (Sql.init [] .dict)
+      [.op (.set "a" (.int 1)), .persist .migrate, .op .getState, .persist .copyRun, .op (.mutSnap "a" (.int 2)),
+       .persist .reopen, .op .writeBack, .op (.get "a" none)] =
+      [.none, .none, .state ⟨.dict, [("a", .int 1)]⟩, .none, .none, .none, .none, .val (.int 2)] := ⟨rfl, rfl, rfl⟩
+
 /-! ## Source shape of the code paths the machines follow -/
 
 /-- the path helpers, `merge_state` / `clear` and the SQLite methods still have the dispatch the
